@@ -105,7 +105,7 @@ class FullyImplicitUpdate(_DaeBase):
 
     def post(self, st, old, result, exc):
         L, M, sw, P = st.L, st.M, st.L.sweep, st.L.prob
-        dt, Q, QI = L.dt, sw.coll.Qmat, sw.QI
+        dt, Q, QI = L.params.dt, sw.coll.Qmat, sw.QI
         yield 'returns_normally', exc is None
         if exc is not None:
             return
@@ -118,7 +118,7 @@ class FullyImplicitUpdate(_DaeBase):
             want = cp(st.old_u[0]) + vsum(dt * (Q[m, j] - QI[m, j]) * st.old_f[j] for j in range(1, M + 1)) + vsum(dt * QI[m, j] * L.f[j] for j in range(1, m))
             yield f'U{m}:u_approx', veq(rec.u_approx, want)
             yield f'U{m}:factor', seq(rec.factor, dt * QI[m, m])
-            yield f'U{m}:time', seq(rec.t, L.time + dt * sw.coll.nodes[m - 1])
+            yield f'U{m}:time', seq(rec.t, L.status.time + dt * sw.coll.nodes[m - 1])
             yield f'U{m}:guess_is_old_derivative', veq(rec.u0, st.old_f[m])
             yield f'U{m}:implicit_system_is_the_sweepers_F', rec.fn is sw.F or rec.fn == type(sw).F
             yield f'U{m}:nodes_in_order', rec.k == m - 1
@@ -189,7 +189,7 @@ class SemiImplicitIntegrate(_DaeBase):
 
     def post(self, st, old, result, exc):
         L, M = st.L, st.M
-        Q, dt = L.sweep.coll.Qmat, L.dt
+        Q, dt = L.sweep.coll.Qmat, L.params.dt
         yield 'returns_M_values', exc is None and len(result) == M
         if exc is not None:
             return
@@ -199,7 +199,7 @@ class SemiImplicitIntegrate(_DaeBase):
         yield from frame_clauses(old, snapshot({'L': L}), frame=())
 
     def canary(self, st, old, result, exc):
-        yield 'canary:alg_integrated_too', veq(result[0].alg, vsum(st.L.dt * st.L.sweep.coll.Qmat[1, j] * st.old_f[j].alg for j in range(1, st.M + 1)))
+        yield 'canary:alg_integrated_too', veq(result[0].alg, vsum(st.L.params.dt * st.L.sweep.coll.Qmat[1, j] * st.old_f[j].alg for j in range(1, st.M + 1)))
 
 
 class SemiImplicitUpdate(_DaeBase):
@@ -212,7 +212,7 @@ class SemiImplicitUpdate(_DaeBase):
 
     def post(self, st, old, result, exc):
         L, M, sw, P = st.L, st.M, st.L.sweep, st.L.prob
-        dt, Q, QI = L.dt, sw.coll.Qmat, sw.QI
+        dt, Q, QI = L.params.dt, sw.coll.Qmat, sw.QI
         yield 'returns_normally', exc is None
         if exc is not None:
             return
@@ -226,7 +226,7 @@ class SemiImplicitUpdate(_DaeBase):
             want = cp(st.old_u[0].diff) + vsum(dt * (Q[m, j] - QI[m, j]) * st.old_f[j].diff for j in range(1, M + 1)) + vsum(dt * QI[m, j] * L.f[j].diff for j in range(1, m))
             yield f'U{m}:u_approx.diff', veq(rec.u_approx.diff, want)
             yield f'U{m}:factor', seq(rec.factor, dt * QI[m, m])
-            yield f'U{m}:time', seq(rec.t, L.time + dt * sw.coll.nodes[m - 1])
+            yield f'U{m}:time', seq(rec.t, L.status.time + dt * sw.coll.nodes[m - 1])
             yield f'U{m}:guess_is_old_derivative_and_old_algebraic_value', And(veq(rec.u0.diff, st.old_f[m].diff), veq(rec.u0.alg, st.old_u[m].alg))
             yield f'U{m}:implicit_system_is_the_sweepers_F', rec.fn is sw.F or rec.fn == type(sw).F
             yield f'U{m}.alg:derivative_of_algebraic_part_untouched', veq(L.f[m].alg, st.old_f[m].alg)
@@ -273,7 +273,7 @@ class RKDAEUpdate(_DaeBase):
 
     def post(self, st, old, result, exc):
         L, M, sw, P = st.L, st.M, st.L.sweep, st.L.prob
-        dt, A, c = L.dt, sw.QI, sw.coll.nodes
+        dt, A, c = L.params.dt, sw.QI, sw.coll.nodes
         yield 'returns_normally', exc is None
         if exc is not None:
             return
@@ -287,7 +287,7 @@ class RKDAEUpdate(_DaeBase):
                 continue
             yield f'K{m}:u_approx', veq(rec.u_approx, cp(st.old_u[0]) + vsum(dt * A[m, j] * L.f[j] for j in range(1, m)))
             yield f'K{m}:factor', seq(rec.factor, dt * A[m, m])
-            yield f'K{m}:time', seq(rec.t, L.time + dt * c[m])
+            yield f'K{m}:time', seq(rec.t, L.status.time + dt * c[m])
             yield f'K{m}:guess_is_previous_stage_derivative', veq(rec.u0, L.f[m - 1])
             yield f'K{m}:implicit_system_is_FullyImplicitDAE.F', rec.fn is FullyImplicitDAE.F or rec.fn == FullyImplicitDAE.F
         for m in range(1, M + 1):
